@@ -29,8 +29,9 @@ ASSUMPTIONS = [
     'the batch generator built by RandomStateLoader from get_sub_seed(seed, b) yields a stream that depends on (seed, b) '
     'only (C15); draws are arbitrary reals',
     'operations are deterministic functions of their inputs and draws (uninterpreted functions)',
-    'main claim: every stochastic node that executes after a stored stochastic node is itself stored or downstream of it '
-    '(complement = known finding C05/stochastic-after-loaded-stochastic, probed separately)',
+    'main claim: in a batch in which a stochastic node is loaded from the pool, no other stochastic node executes after it '
+    '(complement = known finding C05/stochastic-after-loaded-stochastic, probed separately: an unstored second simulator, and '
+    'a pool left with the parameters only after the simulator\'s store was removed)',
     'a replaced summary/distance node (and anything computed from it) is not held by the pool (the user removed those '
     'stores, as the documentation of OutputPool instructs)',
     'number of finite admissible draws >= n_samples (C01 finding region excluded)',
@@ -267,8 +268,13 @@ HARNESSES = []
 for si, st in enumerate(STORED_SETS):
     for sname in ('fill_rerun_more', 'fill_replace_d', 'fill_replace_s', 'fill_remove_sim'):
         quick = (si in (0, 1, 4, 6) and sname in ('fill_rerun_more', 'fill_replace_s')) or (si == 0 and sname == 'fill_remove_sim')
+        # removing the simulator's store from a pool that also holds the parameters leaves a loaded stochastic node (t)
+        # followed by an executing one (sim): the region of the known finding
+        shifted = 't' in st and 'sim' in st and sname == 'fill_remove_sim' and not ({'s', 'd'} & set(st))
         HARNESSES.append(H('pool_%s_%s' % ('+'.join(st), sname), h_pool_history,
                            dict(bs=2, n=2, stored_idx=si, script=SCRIPTS[sname]),
+                           finding='C05/stochastic-after-loaded-stochastic' if shifted else None,
+                           finding_claims=('_same_t', '_same_s', '_same_d', '_same_threshold') if shifted else None,
                            tiers=('quick', 'thorough') if quick else ('thorough',),
                            bounds='batch_size=2 n_samples=2 stored=%s script=%s (<=3 batches)' % (list(st), SCRIPTS[sname])))
 HARNESSES += [
